@@ -20,7 +20,7 @@ RULE = ("Hypothesis-generated histories (<=15 ops) over A<-B<-C with parameters 
         "identical default object), in-place mutation of values, instance- and class-level Parameter attribute edits "
         "(bounds, doc, objects append/assign; a subclass that has its own Parameter object must not reach its ancestors), Composite sets at every level, temporary update() contexts, bare reads creating per-instance copies; oracle = ownership model for values "
         "+ frame conditions for metadata after every op. Non-trivial = an instance is created between two class-level "
-        "changes, or an in-place mutation / metadata edit follows the creation of a second instance; distinct = case hash.")
+        "changes, or an in-place mutation / metadata edit follows the creation of a second instance; distinct = case hash. Round-4 additions: Selectors whose objects are held in a deque / a UserDict, the instantiate flag of a class Parameter raised after instances exist (later instances get private copies), shared_parameters() blocks left normally or through an exception.")
 ASSUMPTIONS = [
     "whether an instance follows later class-level *metadata* changes is not claimed (depends on the lazy copy)",
     "per_instance=False parameters are exempt from the metadata frame conditions",
@@ -83,6 +83,15 @@ def _case(draw):
         # never been touched, then a class-level assignment is made on that middle class, then another leaf is created
         n = draw(st.sampled_from([1, 3, 0, 9]))     # l, sh, x, lr
         ops[0:0] = [["new", 2, "", 0], ["cset", 1, n, draw(_k)], ["new", 2, "", 0]]
+    if draw(st.integers(0, 4)) == 0:
+        # order-dependent motif: instances exist, then the instantiate flag of the shared default is raised on a class
+        # Parameter, then more instances are made and one of them mutates its value in place
+        c = draw(_c)
+        motif = [["new", c, "", 0], ["cattr", draw(st.integers(0, c)), 10, 0], ["new", c, "", 0], ["new", draw(_c), "", 0],
+                 ["imut", draw(_i), 1, draw(_k)]]
+        pos = sorted(draw(st.lists(st.integers(0, len(ops)), min_size=5, max_size=5)))
+        for off, (q, m) in enumerate(zip(pos, motif)):
+            ops.insert(q + off, m)
     return {"b_redeclares_x": draw(st.booleans()), "ops": ops,
             # the instances are container-like objects that are empty, hence falsy
             "falsy": draw(st.sampled_from([False, False, True]))}
